@@ -875,3 +875,7 @@ macro_rules! except {
         }
     };
 }
+
+#[cfg(any(kani, verif_replay))]
+#[path = "/verif/kani/cluster.rs"]
+pub(crate) mod verif_kani_cluster;
